@@ -3,6 +3,7 @@ pub mod gen_c07;
 pub mod gen_fml;
 pub mod gen_inst;
 pub mod inst;
+pub mod oracle_frames;
 pub mod time;
 pub mod wire;
 
